@@ -208,3 +208,67 @@ func ZZ_C16_OctreeRay() {
 	}
 	zz.Reach("answered")
 }
+
+// a segment element: its bounding box is much larger than the primitive, so the distance to the box says
+// little about the distance to the element
+type seg struct{ a, b vector3.Float64 }
+
+func (e seg) BoundingBox() geometry.AABB { return geometry.NewAABBFromPoints(e.a, e.b) }
+func (e seg) ClosestPoint(p vector3.Float64) vector3.Float64 {
+	ab := e.b.Sub(e.a)
+	t := p.Sub(e.a).Dot(ab) / ab.Dot(ab)
+	if t < 0 {
+		t = 0
+	}
+	if t > 1 {
+		t = 1
+	}
+	return e.a.Add(ab.Scale(t))
+}
+
+// concrete segment layouts: a long diagonal with short segments tucked into the corners of its box; crossing
+// diagonals; a single segment
+var segLayouts = [][]seg{
+	{{vector3.New(0., 0., 0.), vector3.New(8., 8., 0.)}, {vector3.New(6., 1., 0.), vector3.New(7., 1., 0.)}},
+	{{vector3.New(0., 0., 0.), vector3.New(8., 8., 8.)}, {vector3.New(9., 0., 0.), vector3.New(9., 1., 0.)}, {vector3.New(1., 7., 1.), vector3.New(1., 6., 2.)}},
+	{{vector3.New(0., 0., 0.), vector3.New(4., 4., 0.)}, {vector3.New(0., 4., 0.), vector3.New(4., 0., 0.)}},
+	{{vector3.New(-1., 2., 0.5), vector3.New(2., -2., 0.5)}},
+}
+
+// closest element among segments: the query point varies freely along one line through the layout (the other two
+// coordinates are taken from a small concrete set), every depth
+func ZZ_C16_OctreeClosestSegment() {
+	lay := segLayouts[zz.Choose("layout", zz.Bound("LAYOUTS"))]
+	els := make([]trees.Element, len(lay))
+	for i := range lay {
+		els[i] = lay[i]
+	}
+	t := tree(els)
+	tv := zz.Float64("q.t")
+	offs := [][2]float64{{1.5, 0.25}, {7.5, 0.5}, {-2, 3}}
+	o := offs[zz.Choose("q.offset", zz.Bound("OFFSETS"))]
+	var q vector3.Float64
+	switch zz.Choose("q.axis", zz.Bound("AXES")) {
+	case 0:
+		q = vector3.New(tv, o[0], o[1])
+	case 1:
+		q = vector3.New(o[0], tv, o[1])
+	default:
+		q = vector3.New(o[1], o[0], tv)
+	}
+	zz.Reach("built")
+	idx, p := t.ClosestPoint(q)
+	zz.Assert(idx >= 0 && idx < len(lay), "ClosestPoint(segments) returns a valid element index")
+	if idx < 0 || idx >= len(lay) {
+		return
+	}
+	own := lay[idx].ClosestPoint(q)
+	zz.AssertNear(p.X(), own.X(), "ClosestPoint(segments): the point is the returned element's closest point (x)")
+	zz.AssertNear(p.Y(), own.Y(), "ClosestPoint(segments): the point is the returned element's closest point (y)")
+	zz.AssertNear(p.Z(), own.Z(), "ClosestPoint(segments): the point is the returned element's closest point (z)")
+	best := d2(own, q)
+	for j := range lay {
+		zz.Assert(best <= d2(lay[j].ClosestPoint(q), q)*(1+1e-9)+1e-9, fmt.Sprintf("ClosestPoint(segments): no element is closer than the returned one (n=%d)", len(lay)))
+	}
+	zz.Reach("answered")
+}
